@@ -129,6 +129,7 @@ func buildTable() *Node {
 	enu := enums("one", "two", "three-3")
 	uni := union("int32", "enumeration", "string")
 	root := cont("",
+		leaf("top", "string"), leaflist("topll", "string"),
 		cont("plain",
 			leaf("descr", "string"), leaf("descr-long", "string"), leaf("a", "string"), leaf("a_b", "string"),
 			leaf("num", "uint32"), leaf("flag", "boolean"), leaf("defleaf", "string", def("dflt")),
